@@ -7,13 +7,21 @@
 //! the first `count` items (the rolled-back record leaves no trace); surviving names still decode.
 use crate::common::*;
 use crate::props::encscript::{self, *};
+use crate::props::msgemit::{self, gen_message_tier, limits_for, msg_line};
+use hickory_proto::op::{Edns, Message, MessageType, OpCode, Query};
+use hickory_proto::rr::rdata::{A, NS, TXT};
+use hickory_proto::rr::{Name, RData, Record, RecordType};
 
 fn nontrivial(v: &Verdict) -> bool {
     v.log.n_emax + v.log.n_naw >= 1
 }
 
 pub fn exec(line: &str, rec: &mut Recorder) {
-    encscript::exec(line, rec, nontrivial)
+    if line.starts_with("msg ") || line.starts_with("resp ") || line.starts_with("rt ") {
+        msgemit::exec(line, rec, |v| v.n_truncated >= 1)
+    } else {
+        encscript::exec(line, rec, nontrivial)
+    }
 }
 
 const LABELS: &[&str] = &["a", "bb", "Www", "example", "EXAMPLE", "com", "org", "x", "mail", "ns1"];
@@ -162,7 +170,7 @@ fn raw_script(r: &mut Rng) -> String {
 }
 
 pub fn run(o: &Opts, rec: &mut Recorder) {
-    rec.rule = "encoder scripts shaped like emit_message_parts (limit, 12-octet header place, question and 1-3 record sections written with emit_iter, items = owner name/type/class/ttl/RDLENGTH place/rdata/back-patch with A, name, MX, TXT, SRV-like, SOA-like and opaque rdata, occasionally an item failing with a non-size error or containing a nested emit_iter), each script run under limits drawn from 0..full length+2 (thorough: for one script in 12 every limit), plus raw primitive scripts under limits 0-90; a case is non-trivial when at least one write was refused for size (MaxBufferSizeExceeded or NotAllRecordsWritten); distinct by case line".into();
+    rec.rule = "encoder scripts shaped like emit_message_parts (limit, 12-octet header place, question and 1-3 record sections written with emit_iter, items = owner name/type/class/ttl/RDLENGTH place/rdata/back-patch with A, name, MX, TXT, SRV-like, SOA-like and opaque rdata, occasionally an item failing with a non-size error or containing a nested emit_iter), each script run under limits drawn from 0..full length+2 (thorough: for one script in 12 every limit), plus raw primitive scripts under limits 0-90; a case is non-trivial when at least one write was refused for size (MaxBufferSizeExceeded or NotAllRecordsWritten); distinct by case line.  Stage 2: structured messages (tier-1 RDATA types, shared suffixes, 0-12 or 30-90 records per section, EDNS with/without options, TSIG, extended rcodes) given as wire bytes, re-encoded by Message::emit under every limit around each record boundary, the whole tail of the message and fixed/random limits (small messages: every limit), and sent through ResponseHandle::send_response over UDP (advertised payload none/0/300/512/1232/4096/65535) and TCP; deterministic adversarial messages (full candidate table before the cut, cut inside the additionals with OPT appended, complete 511/512/513-octet EDNS responses, empty-RDATA last record); a message case is non-trivial when at least one limit truncated it".into();
     for l in o.pre_lines.clone() {
         exec(&l, rec);
     }
@@ -190,4 +198,132 @@ pub fn run(o: &Opts, rec: &mut Recorder) {
             exec(&raw_script(&mut r), rec);
         }
     }
+    // ---------------- stage 2: whole messages under limits, and the server's response encoder
+    for l in built_in_messages() {
+        exec(&l, rec);
+    }
+    let mut r = Rng::new(o.seed ^ 0x5EC0_4D02);
+    let n = o.n(150, 2500);
+    for i in 0..n {
+        let big = i % 12 == 5;
+        let Some(m) = gen_message_tier(&mut r, rec, big) else { continue };
+        let Ok(bytes) = m.to_vec() else {
+            rec.stat("gen.emit-failed");
+            continue;
+        };
+        let limits: Vec<u16> = if bytes.len() <= 300 && (i % 3 == 1 || o.thorough()) {
+            (0..=bytes.len() as u16 + 2).collect()
+        } else {
+            limits_for(&mut r, &bytes, if o.thorough() { 240 } else { 70 })
+        };
+        exec(&msg_line(&bytes, &limits), rec);
+        if m.queries.len() == 1 && (i % 2 == 0 || big) {
+            let h = hex(&bytes);
+            for adv in ["-", "512", "1232", "4096", "65535", "300", "0"] {
+                if adv == "-" || r.chance(1, 2) || big {
+                    exec(&format!("resp udp {adv} {h}"), rec);
+                }
+            }
+            exec(&format!("resp tcp {} {h}", r.pick(&["-", "1232"])), rec);
+        }
+    }
+}
+
+fn nm(labels: &[&str]) -> Name {
+    Name::from_labels(labels.iter().map(|l| l.as_bytes())).unwrap()
+}
+
+fn txt(n: usize) -> RData {
+    let chunks: Vec<Vec<u8>> = (0..n.div_ceil(200)).map(|i| vec![b'x'; if (i + 1) * 200 <= n { 200 } else { n - i * 200 }]).collect();
+    RData::TXT(TXT::from_bytes(chunks.iter().map(|c| &c[..]).collect()))
+}
+
+fn a(x: u8) -> RData {
+    RData::A(A::new(10, 0, 0, x))
+}
+
+/// deterministic adversarial messages, every limit in the interesting stretch
+fn built_in_messages() -> Vec<String> {
+    let mut v = vec![];
+    let base = |id: u16| {
+        let mut m = Message::new(id, MessageType::Response, OpCode::Query);
+        m.add_query(Query::new(nm(&["q", "example"]), RecordType::A));
+        m
+    };
+    // (1) candidate table full (and nearly full) before the cut; the dropped record introduces a new
+    //     name; smaller records in later sections use that name again
+    for (distinct, solo) in [(70usize, false), (40, false), (32, false), (31, true), (31, false), (30, true), (30, false), (29, true), (29, false), (28, false)] {
+        for with_edns in [false, true] {
+            let mut m = base(1);
+            if solo {
+                // one more candidate: the table holds an odd number before the cut
+                m.add_answer(Record::from_rdata(nm(&["solo"]), 60, a(0)));
+            }
+            for i in 0..distinct {
+                let (h, z) = (format!("h{i}"), format!("z{i}"));
+                m.add_answer(Record::from_rdata(nm(&[h.as_str(), z.as_str()]), 60, a(i as u8)));
+            }
+            let cut_from = m.to_vec().unwrap().len();
+            m.add_answer(Record::from_rdata(nm(&["new", "victim", "example"]), 60, txt(150)));
+            m.add_authority(Record::from_rdata(nm(&["victim", "example"]), 60, RData::NS(NS(nm(&["new", "victim", "example"])))));
+            m.add_additional(Record::from_rdata(nm(&["new", "victim", "example"]), 60, a(1)));
+            m.add_additional(Record::from_rdata(nm(&["www", "new", "victim", "example"]), 60, a(2)));
+            if with_edns {
+                m.set_edns(Edns::new());
+            }
+            let bytes = m.to_vec().unwrap();
+            let limits: Vec<u16> = (cut_from as u16 - 2..=bytes.len() as u16 + 2).collect();
+            v.push(msg_line(&bytes, &limits));
+            v.push(format!("resp udp 4096 {}", hex(&bytes)));
+            v.push(format!("resp udp - {}", hex(&bytes)));
+        }
+    }
+    // (2) the cut falls in the additional section and the OPT record still fits afterwards
+    for opts in [false, true] {
+        let mut m = base(2);
+        m.add_answer(Record::from_rdata(nm(&["q", "example"]), 60, a(1)));
+        m.add_additional(Record::from_rdata(nm(&["ns1", "example"]), 60, a(2)));
+        m.add_additional(Record::from_rdata(nm(&["big", "example"]), 60, txt(90)));
+        m.add_additional(Record::from_rdata(nm(&["ns2", "example"]), 60, a(3)));
+        let mut e = Edns::new();
+        if opts {
+            e.options_mut().insert(hickory_proto::rr::rdata::opt::EdnsOption::Unknown(65001, vec![1, 2, 3]));
+        }
+        m.set_edns(e);
+        let bytes = m.to_vec().unwrap();
+        let limits: Vec<u16> = (0..=bytes.len() as u16 + 2).collect();
+        v.push(msg_line(&bytes, &limits));
+    }
+    // (3) limits on and around the RDLENGTH of a record with empty RDATA at the very end: an
+    //     option-less OPT; a complete EDNS response of exactly 513 / 512 / 511 octets
+    for total in [513usize, 512, 511, 1233, 1232] {
+        let mut pad = total.saturating_sub(80);
+        loop {
+            let mut m = base(3);
+            m.add_answer(Record::from_rdata(nm(&["q", "example"]), 60, txt(pad)));
+            m.set_edns(Edns::new());
+            let bytes = m.to_vec().unwrap();
+            if bytes.len() == total {
+                let limits: Vec<u16> = (total as u16 - 14..=total as u16 + 2).collect();
+                v.push(msg_line(&bytes, &limits));
+                v.push(format!("resp udp 512 {}", hex(&bytes)));
+                v.push(format!("resp udp 1232 {}", hex(&bytes)));
+                v.push(format!("resp udp - {}", hex(&bytes)));
+                break;
+            }
+            if bytes.len() > total || pad > total {
+                break;
+            }
+            pad += 1;
+        }
+    }
+    // an RFC 2136 style record with empty RDATA as the last record, no EDNS
+    let mut m = Message::new(4, MessageType::Query, OpCode::Update);
+    m.add_query(Query::new(nm(&["zone", "example"]), RecordType::SOA));
+    m.add_authority(Record::from_rdata(nm(&["a", "zone", "example"]), 60, a(1)));
+    m.add_authority(Record::update0(nm(&["b", "zone", "example"]), 0, RecordType::A));
+    let bytes = m.to_vec().unwrap();
+    let limits: Vec<u16> = (0..=bytes.len() as u16 + 2).collect();
+    v.push(msg_line(&bytes, &limits));
+    v
 }
